@@ -20,25 +20,25 @@ CHECKS = {
     "C06": dict(
         engine="corr-graph",
         technique="Coq proof of the soundness of executable graph checkers (rank certificate => acyclic; unique parentless root + ranks => all reachable, by strong induction; edge symmetry; unique identities; exactly one same-worker producer per required state and no spurious edge; one net / named vms) + translation validation: the checkers are evaluated on the real parser's graphs",
-        text=('PARTIAL (translation validation). Proved for every graph the checker accepts: no cycle; exactly one root, without parents, from which every node is reachable; every dependency recorded on both ends with the same objects; identities pairwise different; for every required (object, state) of a non-flat, non-clone-source node exactly one parent of the same worker based on that object and producing exactly that state; every other edge leads to the shared root from the node creating that object; one network object and exactly the vms the parameters name. The checker is run on eager graphs of a seed-rotated slice of 456 selections of the shipped suite per run (and, in C09, on graphs grown lazily).'),
+        text=('PARTIAL (translation validation). Proved for every graph the checker accepts: no cycle; exactly one root, without parents, from which every node is reachable; every dependency recorded on both ends with the same objects; identities pairwise different; for every required (object, state) of a non-flat, non-clone-source node exactly one parent of the same worker based on that object and producing exactly that state; every other edge leads to the shared root from the node creating that object; one network object and exactly the vms the parameters name. The checker is run on eager graphs of a seed-rotated slice of 1140 selections of the shipped suite per run (19 restrictions x 12 worker sets incl. restricting workers net3/net5 x 5 vm variant sets incl. none), on selections of an extended scratch copy of the suite with two-object dependencies (graphx.EXTRA_TESTS), on a corpus of selections that exposed defects (restricted worker first: fixed fc23fe8) and, in C09, on graphs grown lazily.'),
         note=GRAPH_NOTE,
         design="§5 C06"),
     "C07": dict(
         engine="corr-graph",
         technique="Coq proof of checker soundness (none missing / duplicated / spurious per declared get state; clones pairwise different, source without dependants) + translation validation on the real parser's graphs + comparison of every composed node's get/set declarations with the flat Cartesian universe",
-        text=('PARTIAL (translation validation). Proved for accepted graphs: every declared dependency of a node is represented by exactly one producing parent of the same worker, no dependency exists without a matching get/set pair, a clone source has pairwise distinct clones requiring different states and keeps no dependants. Checked per explored selection: the checker accepts; node names are unique per graph (shared setup represented once per worker); every non-clone composed node carries exactly the get_state/set_state parameters of the flat test it was composed from.'),
+        text=('PARTIAL (translation validation). Proved for accepted graphs: every declared dependency of a node is represented by exactly one producing parent of the same worker, no dependency exists without a matching get/set pair, a clone source has pairwise distinct clones requiring different states and keeps no dependants. Checked per explored selection: the checker accepts; node names are unique per graph (shared setup represented once per worker); every non-clone composed node carries exactly the get_state/set_state parameters of the flat test it was composed from; selection independence: in combined selections (A,B) every test of A alone and of B alone has the same dependencies as in the combined graph (names compared without the test-set component, clone sources skipped).'),
         note=GRAPH_NOTE,
         design="§5 C07"),
     "C09": dict(
         engine="corr-graph",
         technique='Coq proof (pointer model of bridge_with_node: a node joining a class that shares one register set shares it too, by induction over the class; checker soundness for symmetric, typed, register-sharing links) + translation validation: worker copies mirror each other, lazy traversal graph is a sub-graph of the eager one with identical dependencies, double parse identical',
-        text=("PARTIAL. Proved: C09_joined_node_shares_registers (the parser's bridging pattern; the update tool's all-pairs pattern as a computed instance; a counterexample for arbitrary orders); links accepted by the checker are symmetric, between equal forms, with identical register identity. Checked on real graphs: every node of a worker has a mirror in every other worker's copy with mirrored parents (copies_equiv), all equal forms of different workers are linked; after a lazy traversal (real parser, randomly delayed stub tests) every expanded node has exactly the eager graph's dependencies, every test form was expanded by some worker, and the grown graph passes the C06 checker; two parses of the same input are identical including prefixes."),
+        text=("PARTIAL. Proved over Model/Bridge.v (pointer model of bridge_with_node, compared with the real method on bridging sequences in parser, update-tool and random order): C09_joined_class_shares_registers (a new node bridged with every node of its form leaves the class on one register set, whatever the class shared before) and C09_all_pairs_class_shares_registers (the update tool's all-ordered-pairs loop, for every class and every earlier bridging in which the first node agrees with its links); checker soundness: accepted links are symmetric, between equal forms, with identical register identity; C09_copies_mirror_each_other: an accepted graph gives every node a mirror with mirrored dependencies for every other worker exactly unless that worker's restrictions exclude one of its vm variants. Checked on real graphs (parser and update tool): copies_equiv, all equal forms of different workers are linked; after a lazy traversal (real parser, randomly delayed stub tests) every expanded node has exactly the eager graph's dependencies, every test form was expanded by some worker, and the grown graph passes the C06 checker; two parses of the same input are identical including prefixes."),
         note=GRAPH_NOTE,
         design="§5 C09"),
     "C01": dict(
         engine="corr-trace",
         technique="Coq proof of the decision links (start needs a positive run decision; a clean scan saw every set state in own/shared pool; a passing run leaves its states in the own pool) + trace refinement: hand-driven real coroutines vs the Gallina traversal model, section by section; availability itself is a monitor on the implementation's pools",
-        text=("PARTIAL and REFUTED in one configuration. Proved over Model/Traverse*.v (all graphs/states): the links of the availability argument (C01_*_partial). The end-to-end statement is false of the faithful model and of the code when the only copy of a state was left in ANOTHER worker's own pool by an earlier run (known finding, reported as KNOWN-FINDING with that exact signature; any other unavailable state is a VIOLATION). The monitor checks, at every test start observed on the real code, that each required state is in the worker's own pool, the shared pool or a pool named in get_location, unless its producer (or creation pre-step) was attempted and did not pass. The model is compared with the real traversal on every atomic section of every generated run."),
+        text=("PARTIAL and REFUTED in one configuration. Proved over Model/Traverse*.v (all graphs/states): the links of the availability argument (C01_*_partial). The end-to-end statement is false of the faithful model and of the code when the only copy of a state was left in ANOTHER worker's own pool by an earlier run (known finding), and when the reuse scope derived from pool_scope ignores a disabled pool scope (remote cluster mates without 'swarm', lxc beside remote without 'cluster': second known finding); both are reported as KNOWN-FINDING with their exact signatures, any other unavailable state is a VIOLATION. The monitor checks, at every test start observed on the real code, that each required state is in a place the test may fetch from - the worker's own pool (scope own), the shared pool (scope shared) or a pool named in get_location whose distance scope (swarm / cluster) is enabled - unless its producer (or creation pre-step) was attempted and did not pass. The model is compared with the real traversal on every atomic section of every generated run."),
         note=TRAV_NOTE,
         design="§5 C01"),
     "C02": dict(
@@ -74,7 +74,7 @@ CHECKS = {
     "C15": dict(
         engine="corr-pure",
         technique="Coq proof (worklist closure of flag_children; list lemmas for the run/remove sets of update on a chain of states) + correspondence: the real update tool under the selftests' job seam vs Model/Tools.v on a separately parsed state graph",
-        text=("Proved: flag_children reaches exactly the nodes connected through child edges (with/without the start node); on a duplicate-free chain update_runs = the segment from from_state to to_state, both included, update_unsets = exactly what follows to_state. Checked: intertest_setup.update for (from,to) pairs along vm1's states x worker sets runs exactly those tests and removes exactly the states derived from to_state, touches no other vm, and rejects unknown states. PARTIAL: the state graph given to the model comes from the real parser."),
+        text=("Proved: flag_children reaches exactly the nodes connected through child edges (with/without the start node); on a duplicate-free chain update_runs = the segment from from_state to to_state, both included, update_unsets = exactly what follows to_state. Checked: intertest_setup.update for (from,to) pairs along vm1's states x worker sets runs exactly those tests and removes exactly the states derived from to_state, touches no other vm, and rejects unknown states; updates of 2-3 vms on 2-4 workers (randomly delayed stub tests) execute every path test exactly once across all workers. PARTIAL: the state graph given to the model comes from the real parser."),
         note=COMMON_NOTE + "The selftests' job seam (mock job, stub run_test_task with random short delays, recording door) stands for the avocado job and the remote state control.",
         design="§5 C15"),
     "C20": dict(
